@@ -14,7 +14,7 @@ Extraction "../extract/C19/model.ml"
   dv_multadd_sv dv_add_sv dv_sub_sv dv_multsub_sv dv_assign_sv dv_set_sv
   ss_new ss_do_setup ss_unsetup ss_clearnum ss_setvalue ss_add ss_clearidx ss_clear ss_scale ss_add_dv ss_sub_dv
   ss_multadd_dv ss_add_sv ss_sub_sv ss_add_ss ss_sub_ss ss_multadd_sv ss_set_sv dv_add_ss dv_sub_ss dv_multadd_ss
-  dv_dot_ss dv_set_ss ss_dot_ss ss_redim ss_entries rows_tmul Qred
+  dv_dot_ss dv_set_ss ss_dot_ss ss_assign_ss ss_redim ss_entries rows_tmul Qred
   (* containers *)
   is_pos is_dim is_add is_add_list is_remove_pos is_remove_range dis_room dis_setmax
   ns_names ns_number ns_has ns_key ns_add ns_remove_name ns_remove_num ns_remove_keys ns_remove_nums ns_remove_perm
